@@ -122,7 +122,10 @@ def ret_shape(path, crate=None):
     return "?"
 
 
-def fmt_bytes(bs):
+def fmt_bytes(bs, limit=14):
+    bs = list(bs)
+    if len(bs) > limit:
+        return fmt_bytes(sorted(bs, key=lambda x: (x is None, x))[:limit], limit)[:-1] + ", ... %d bytes in all}" % len(bs)
     out = []
     for b in sorted(bs, key=lambda x: (x is None, x)):
         if b is None:
